@@ -149,12 +149,13 @@ def bindir(release=False):
 
 
 TLC_JAR = "/opt/veriftools/tla/tla2tools.jar"
+_tlc_seq = __import__("itertools").count()   # unique metadir per call, also from thread pools
 
 
 def tlc(module, cfg=None, env=None, workers=1, deque=False, timeout=600,
         metadir=None, extra=None, xmx="4g", coverage=False, cwd=SPECS, check_ok=True):
     """Run TLC on specs/<module>.tla. Returns dict with counts and output."""
-    metadir = metadir or os.path.join(WORK, "tlcmeta", f"{module}-{os.getpid()}-{int(time.time()*1000)%100000}")
+    metadir = metadir or os.path.join(WORK, "tlcmeta", f"{module}-{os.getpid()}-{next(_tlc_seq)}-{int(time.time()*1000)%100000}")
     os.makedirs(metadir, exist_ok=True)
     jopts = f"-Xss1g -Xmx{xmx}"
     if deque:
